@@ -186,7 +186,7 @@ func runC14(c *explore.Ctx) {
 			verifrt.ResetPools()
 			bb, err := buildBytes(b, mode)
 			if err != nil {
-				c.R.Error = fmt.Sprintf("C14 cold build of menu batch %d failed: %v", i, err)
+				envFail(c, fmt.Sprintf("C14 cold build of menu batch %d failed: %v", i, err))
 				return
 			}
 			base[i] = bb
@@ -243,7 +243,7 @@ func runC14(c *explore.Ctx) {
 				verifrt.ResetPools()
 				bb, err := buildBytes(b, mode)
 				if err != nil {
-					c.R.Error = fmt.Sprintf("C14 cold build of big batch %d failed: %v", i, err)
+					envFail(c, fmt.Sprintf("C14 cold build of big batch %d failed: %v", i, err))
 					return
 				}
 				bigBase[i] = bb
